@@ -64,10 +64,14 @@ EXHAUSTIVE_SCOPE = {
   "quick": "6 representative target messages per side (HELLO, ECHO_REQUEST, FEATURES_REPLY/FLOW_MOD, PACKET_IN/PACKET_OUT, PORT_STATUS/"
            "SET_CONFIG, flow STATS_REPLY/STATS_REQUEST): every length-field value 0..len+8, 0x7fff and 0xffff at each of 3 positions in "
            "the victim's traffic (first / between / last) x 2 connection orders; every type-byte and version-byte value 0..255, each at "
-           "2 of the 6 position/order combinations; every embedded length field (action len, actions_len, flow-stats entry length) at "
+           "1 (thorough: 2) of the 6 position/order combinations, odd values with the message last in its read; every embedded length field (action len, actions_len, flow-stats entry length) at "
            "0..value+8, 0x7fff, 0x8000, 0xffff with rotating position/order; every truncation length of the target followed by EOF and "
            "followed by more valid traffic; every truncation point of a 5-message stream followed by EOF. Half of the scenarios deliver "
-           "the corrupted header split across two reads or separately from its body. Socket fault grid: a victim that owes a reply "
+           "the corrupted header split across two reads or separately from its body; every length value, embedded-length value and "
+           "truncation (and every second type/version value) is also run with the corrupted message as the last thing in the buffer "
+           "when it is read. Tails: 1..7 bytes (2 fills) beyond the fixed part and beyond the complete variable part of every "
+           "message kind carrying actions / stats bodies / queues / ports, declared in the header length and additionally in each "
+           "embedded length, last in the read and with traffic behind. Socket fault grid: a victim that owes a reply "
            "(switch: BAD_TYPE error, BAD_LEN error, echo reply, features reply; controller: echo reply, features request) x peer "
            "{silent, more data, EOF, ECONNRESET, ETIMEDOUT} x send {ok, EAGAIN, EPIPE, ECONNRESET} x {reported in the same wake-up, "
            "recv first, send first} x victim first/last x 1-2 siblings. Two victims: every ordered pair of 6 offender kinds (bad "
@@ -858,8 +862,10 @@ def _valid(side, i):
   return dict(pool[i % len(pool)])
 
 
-def _scenario(side, label, bad_item, place, order, idx, eof=False, nsib=None):
-  """place: 0 corruption first, 1 between valid messages, 2 last.  order: victim accepted first / last."""
+def _scenario(side, label, bad_item, place, order, idx, eof=False, nsib=None, alone=False):
+  """place: 0 corruption first, 1 between valid messages, 2 last.  order: victim accepted first / last.
+  alone: the corrupted item is the last thing in the receiver's buffer when it is read (whatever precedes it was
+  read in an earlier wake-up, whatever follows arrives in a later one)."""
   a, b = {"m": _valid(side, idx)}, {"m": _valid(side, idx + 3)}
   victim = [bad_item, a, b] if place == 0 else [a, bad_item, b] if place == 1 else [a, b, bad_item]
   nsib = nsib or (1 + idx % 2)
@@ -869,8 +875,11 @@ def _scenario(side, label, bad_item, place, order, idx, eof=False, nsib=None):
     c["eof"] = True
   # a quarter of the scenarios deliver the corrupted header in two reads, a quarter header and body separately
   seg = idx % 4
-  if seg >= 2:
-    off = sum(len(R.build(it["m"]).data) for it in victim[:place])
+  off = sum(len(R.build(it["m"]).data) for it in victim[:place])
+  if alone:
+    c["vcuts"] = [off, off + len(victim_stream([bad_item])[0])]
+    c["label"] = label + "/alone"
+  elif seg >= 2:
     c["vcuts"] = [off + 3] if seg == 2 else [off + 8]
   return c
 
@@ -888,15 +897,18 @@ def enum_header(tier):
               continue
             idx += 1
             yield _scenario(side, "length", {"m": spec, "ops": [{"op": "len", "v": v}]}, place, order, idx)
+            if order == 0 and place != 0:
+              idx += 1
+              yield _scenario(side, "length", {"m": spec, "ops": [{"op": "len", "v": v}]}, place, idx % 2, idx, alone=True)
       # type and version bytes: the place/order product is spread over the 256 values
       for v in range(256):
         for which, off in (("type", 1), ("version", 0)):
           if v == R.build(spec).data[off]:
             continue
-          for rep in range(2):
+          for rep in ((v % 2,) if tier == "quick" else (0, 1)):
             idx += 1
             place, order = (v + rep + off) % 3, (v // 3 + rep) % 2
-            yield _scenario(side, which, {"m": spec, "ops": [{"op": "u8", "off": off, "v": v}]}, place, order, idx)
+            yield _scenario(side, which, {"m": spec, "ops": [{"op": "u8", "off": off, "v": v}]}, place, order, idx, alone=(rep == 1))
 
 
 def enum_embedded(tier):
@@ -911,6 +923,8 @@ def enum_embedded(tier):
             continue
           idx += 1
           yield _scenario(side, "embedded", {"m": spec, "ops": [{"op": "u16", "off": fl["off"], "v": v}]}, idx % 3, idx % 2, idx)
+          idx += 1
+          yield _scenario(side, "embedded", {"m": spec, "ops": [{"op": "u16", "off": fl["off"], "v": v}]}, idx % 3, idx % 2, idx, alone=True)
 
 
 def enum_trunc(tier):
@@ -925,6 +939,8 @@ def enum_trunc(tier):
             yield _scenario(side, "trunc-eof", {"m": spec, "ops": [{"op": "trunc", "keep": keep}]}, 2, idx % 2, idx, eof=True)
           else:
             yield _scenario(side, "trunc-more", {"m": spec, "ops": [{"op": "trunc", "keep": keep}]}, idx % 2, (idx // 2) % 2, idx)
+            idx += 1
+            yield _scenario(side, "trunc-more", {"m": spec, "ops": [{"op": "trunc", "keep": keep}]}, idx % 2, (idx // 2) % 2, idx, alone=True)
     # every truncation point of a 5-message stream (the stream simply stops, then EOF)
     five = [_valid(side, i) for i in (0, 3, 1, 6, 2)]
     total = sum(len(R.build(s).data) for s in five)
@@ -943,6 +959,38 @@ def enum_trunc(tier):
       idx += 1
       yield {"side": side, "label": "trunc-stream", "victim": items, "sib": [[_valid(side, idx), _valid(side, idx + 2)]],
              "vpos": idx % 2, "eof": True}
+
+
+def enum_tails(tier):
+  """A tail of 1..7 bytes beyond the fixed part (and beyond a complete variable part) of every message kind,
+  declared in the header length (and, separately, also in each embedded length): too short to be an action /
+  property / entry header.  Run with the message last in the read and with traffic behind it."""
+  idx = 0
+  T = R
+  fills = [bytes([0, 0, 0, 8, 0, 1, 0]), b"\xff" * 7]
+  for side in ("ctl", "sw"):
+    specs = list(targets(side, "thorough"))
+    for sp in list(specs):
+      if R.uses_n(sp["t"], sp.get("k", 0)) and sp.get("n"):
+        z = dict(sp)
+        z.pop("n")
+        specs.append(z)                              # the fixed part alone
+    if tier == "quick":
+      carry = (T.FLOW_MOD, T.PACKET_OUT, T.STATS_REQUEST, T.STATS_REPLY, T.QUEUE_GET_CONFIG_REPLY, T.FEATURES_REPLY)
+      specs = [sp for sp in specs if sp["t"] in carry]
+    for sp in specs:
+      built = R.build(sp)
+      ln = len(built.data)
+      variants = [None] + [fl for fl in built.fields]
+      for fl in variants:
+        for k in range(1, 8):
+          for fill in fills:
+            ops = [{"op": "ins", "off": ln, "data": fill[:k]}, {"op": "len", "v": ln + k}]
+            if fl is not None:
+              ops.append({"op": "u16", "off": fl["off"], "v": fl["value"] + k})
+            for alone in (True, False):
+              idx += 1
+              yield _scenario(side, "tail", {"m": sp, "ops": ops}, 1 + idx % 2, (idx // 2) % 2, idx, alone=alone)
 
 
 def enum_faults(tier):
@@ -1095,7 +1143,17 @@ def case_strategy(draw, tier):
     case["victim2"] = v2
     case["wpos"] = draw(st.integers(0, nsib + 1))
     case["wdelay"] = draw(st.integers(0, 2))
-  if draw(st.booleans()):
+  how = draw(st.integers(0, 3))
+  if how == 0:
+    # each corrupted item is the last thing in the buffer when it is read
+    cuts, pos = set(), 0
+    for i, it in enumerate(victim):
+      l = len(victim_stream([it])[0])
+      if i in bad_at:
+        cuts.update((pos, pos + l))
+      pos += l
+    case["vcuts"] = sorted(c for c in cuts if 0 < c < pos)
+  elif how == 1:
     total = len(victim_stream(victim)[0])
     if total > 1:
       case["vcuts"] = sorted(set(draw(st.lists(st.integers(1, total - 1), min_size=0, max_size=4))))
@@ -1109,14 +1167,15 @@ def case_strategy(draw, tier):
 
 def plan(tier):
   from ..fuzz import c10_ofstream
-  n = 4000 if tier == "quick" else 160000
+  n = 3000 if tier == "quick" else 160000
   return [
     Enum("header", lambda: enum_header(tier), shards=16),
     Enum("embedded", lambda: enum_embedded(tier), shards=16),
     Enum("truncation", lambda: enum_trunc(tier), shards=16),
+    Enum("tails", lambda: enum_tails(tier), shards=16),
     Enum("faults", lambda: enum_faults(tier), shards=16),
     Enum("two-victims", lambda: enum_two_victims(tier), shards=16),
     Hyp("mutation", lambda: case_strategy(tier), examples=n, shards=16),
     # coverage-guided (atheris/libFuzzer) campaigns on both loops; skipped with a note if atheris is missing
-    Custom("atheris", c10_ofstream.driver(3000 if tier == "quick" else 130000), shards=2 if tier == "quick" else 16),
+    Custom("atheris", c10_ofstream.driver(2000 if tier == "quick" else 130000), shards=2 if tier == "quick" else 16),
   ]
